@@ -28,6 +28,9 @@ type Opts struct {
 	NoProps          bool // omit every optional property
 	MaxArr           int
 	PreferBoundary   bool
+	// OtherEnumValues: values listed by any enum of the schema; used as additional
+	// non-member candidates for every enum that does not list them.
+	OtherEnumValues []jv.V
 }
 
 const asciiAlphabet = "abcXYZ019 _-"
